@@ -191,6 +191,34 @@ Definition op_extend_clones (cl : nat -> bool) (l : list nat) (ids : list nat) :
   extend_go cl 0 l ids.
 
 
+(* ---------------------------------------------------------------- zero-sized element types
+   Two operations have a branch of their own for zero-sized element types.  `fixed = false` is the
+   code of the pinned commit (both were genuine defects, repaired in /repo; see known_findings). *)
+
+(* owned_slice::Drain::drop, T::IS_ZST: the not yet yielded elements of the drained range are
+   dropped by truncating the slice.  Pinned code: the owned IntoIter that had been taken out of the
+   Drain went out of scope afterwards and dropped them once more. *)
+Definition op_drain_zst (fixed : bool) (dp : dpan) (l : list nat) (a b kf kb : nat) : outcome :=
+  let o := op_drain dp l a b kf kb DrainDrop in
+  if fixed then o else mkOutcome (final o) (yielded o) (dropped o ++ dropped o) (unwound o) (calls o).
+
+(* BumpBox::zst_slice_fill(len, value) = alloc_slice_fill of a zero-sized type: len - 1 clones, then
+   the value itself; `ids` = identities of the clones in order, `v` = the value; clone k may panic.
+   Repaired code: through the slice initializer, whose guard drops what was made so far.
+   Pinned code: every clone was mem::forget-ed as it was made: on a panic they are lost. *)
+Fixpoint fill_go (cl : nat -> bool) (k : nat) (made : list nat) (ids : list nat) : list nat * bool * nat :=
+  match ids with
+  | [] => (made, false, k)
+  | x :: r => if cl k then (made, true, S k) else fill_go cl (S k) (made ++ [x]) r
+  end.
+
+Definition op_fill_zst (fixed : bool) (cl : nat -> bool) (ids : list nat) (v : nat) : outcome :=
+  let '(made, panicked, k) := fill_go cl 0 [] ids in
+  if panicked then
+    (* the value is dropped by unwinding; the clones: by the guard (repaired) or never (pinned) *)
+    if fixed then mkOutcome [] [] (made ++ [v]) true k else mkOutcome [] [] [v] true k
+  else mkOutcome (made ++ [v]) [] [] false k.
+
 (* ---------------------------------------------------------------- into_iter / splice / map_in_place / append *)
 (* into_iter consumed from both ends, then dropped: a drain of everything *)
 Definition op_into_iter (dp : dpan) (l : list nat) (kf kb : nat) : outcome :=
